@@ -1468,6 +1468,9 @@ def judge_submesh(cx, res, want, append, only_wt, opt, repair=False):
             if not cands:
                 cx.fail("piece_unknown", "a returned submesh is not one of the requested face sets (in order)", {"faces": int(nfp)}, opt)
                 break
+            # (a request with as many faces as the piece has comes first: a piece that IS a later,
+            # longer request also starts with the faces of a shorter one - thorough tier, false alarm)
+            cands.sort(key=lambda jj: (len(want[jj]) != nfp, jj))
             j = cands[0]
             if len(cands) > 1:
                 # repeated faces: several requests start with the same triangles and the dropped
@@ -1709,13 +1712,17 @@ def judge_split(cx, parts, only_wt, opt, repair=False):
         # for each face in turn, the smallest copy above the previous choice (the first version
         # gave every copy the id of the first one, which turned [copy of 2, copy of 0 = 8] into a
         # false alarm - thorough tier, seed 0)
+        # (copies are faces with the same three corner POSITIONS: duplicated vertices make copies
+        # of faces that use different indices - thorough tier, false alarm of the index-keyed version)
+        def _cls(fi):
+            return tuple(sorted(np.asarray(T.V)[v].tobytes() for v in np.asarray(T.F)[int(fi)].tolist()))
         classes = {}
-        for fi, tri in enumerate(np.sort(np.asarray(T.F), axis=1).tolist()):
-            classes.setdefault(tuple(tri), []).append(fi)
+        for fi in range(len(T.F)):
+            classes.setdefault(_cls(fi), []).append(fi)
         if len(order_src) and any(len(v) > 1 for v in classes.values()):
             chosen, prev = [], -1
             for i in order_src.tolist():
-                copies = classes[tuple(sorted(np.asarray(T.F)[int(i)].tolist()))]
+                copies = classes[_cls(i)]
                 nxt = [c for c in copies if c > prev and c not in chosen]
                 pick = nxt[0] if nxt else int(i)
                 chosen.append(pick)
